@@ -4,7 +4,7 @@
 set -u
 P=$1; M=$2; shift 2
 CHECKS="${@:-$P}"
-OUT=/tmp/mutout-$P; WT=/tmp/mut-$P
+OUT=${OUTBASE:-/tmp/mutout}-$P; WT=${WTBASE:-/tmp/mut}-$P
 export GOFLAGS=-mod=mod GOPROXY=off GOSUMDB=off GOTOOLCHAIN=local
 meta=$OUT/$M.json
 [ -f $OUT/$M.diff ] || { echo "no diff"; exit 2; }
@@ -40,7 +40,7 @@ PY
 . /tmp/seed_env_$P$M.sh
 echo "demo cmd: $DEMO_CMD"; echo "pairs: $DEMO_PAIRS"
 IFS=';' read -ra PAIRS <<< "$DEMO_PAIRS"
-for pr in "${PAIRS[@]}"; do src=${pr%%=*}; dst=${pr#*=}; dst=${dst#/tmp/mut-$P/}; mkdir -p $WT/$(dirname $dst); cp $src $WT/$dst; done
+for pr in "${PAIRS[@]}"; do src=${pr%%=*}; dst=${pr#*=}; dst=${dst#$WT/}; mkdir -p $WT/$(dirname $dst); cp $src $WT/$dst; done
 ( cd $WT && timeout 600 bash -c "$DEMO_CMD" > /tmp/seed_demo_clean_$P$M.log 2>&1 ); RC_CLEAN=$?
 git -C $WT apply $OUT/$M.diff || { echo "diff does not apply"; exit 2; }
 ( cd $WT && go build ./... > /tmp/seed_build_$P$M.log 2>&1 ); RC_BUILD=$?
